@@ -301,6 +301,14 @@ def aDestroy (g : Bool) : Nat → Store → Nat → Res
           ⟨d.σ, true, acc.tr ++ d.tr, d.thrown, d.oof⟩) (Res.ok c.σ true c.tr)
       { r with σ := r.σ.set n {} }
 
+/-- `fillDefaultConfig(js)` on an empty object creates the key of every named module of the tree
+(`js_parent[name_]`), so a following `initialize(js)` finds every key: `cfg := true` below `n` -/
+def fillAll : Nat → Store → Nat → Store
+  | 0, σ, _ => σ
+  | f + 1, σ, n =>
+    let x := σ.get n
+    (x.kids.foldl (fun acc k => fillAll f acc k.1) (σ.set n { x with cfg := true }))
+
 def fuel0 : Nat := 4000
 
 end Tbox.C11.Arena
